@@ -22,7 +22,7 @@ type Ledger struct {
 	acct     map[string]*big.Int
 	chans    map[channel.ID]*lchan
 	subs     map[channel.ID][]*lsub
-	regSub   map[channel.ID]*channel.State // sub-channel states registered together with a parent
+	regSub   map[channel.ID]*channel.State           // sub-channel states registered together with a parent
 	latest   map[channel.ID]channel.AdjudicatorEvent // newest event per channel id (parents and sub-channels): replayed to new subscribers, as real backends do
 	Log      []string
 	Viol     []string
